@@ -1328,6 +1328,73 @@ def op_txt_read(scn):
     out["parsed"] = parsed
     return out
 
+
+@op("json_text")
+def op_json_text(scn):
+    """the text `to_json` writes, and what CPython's parser makes of its prefixes and of damaged
+    variants (the scanner of the model must call every text open that `json.loads` accepts … never)"""
+    import tempfile, random as _r
+    from chipfiring.CFDataProcessor import CFDataProcessor
+    c = Ctx(scn)
+    ok, G = call(c.graph, scn)
+    if not ok:
+        return "ERR"
+    ok, obj = _build_rt_object(c, scn, G)
+    if not ok:
+        return "ERR"
+    kind = scn["kind"]
+    with tempfile.TemporaryDirectory() as td:
+        path = os.path.join(td, "o.json")
+        ok, _ = call(CFDataProcessor().to_json, obj, path)
+        try:
+            with open(path, newline="") as f:
+                text = f.read()
+        except Exception as e:
+            return {"text": {"unreadable": type(e).__name__}}
+        rng = _r.Random(scn.get("fseed", 0))
+        cuts = sorted(set([0, 1, 2, len(text) - 1, len(text) - 2] + [rng.randrange(len(text) + 1) for _ in range(40)]))
+        texts, kinds = [], []
+        for cut in cuts:
+            if 0 <= cut < len(text):
+                texts.append(text[:cut]); kinds.append("prefix")
+        for _ in range(25):
+            pos = rng.randrange(len(text))
+            ch = rng.choice(['"', "\\", "{", "}", "[", "]", ",", ":", " ", "0", "\n", "x"])
+            r = rng.random()
+            if r < 0.4:
+                t = text[:pos] + ch + text[pos + 1:]
+            elif r < 0.7:
+                t = text[:pos] + ch + text[pos:]
+            else:
+                t = text[:pos] + text[pos + 1:]
+            texts.append(t); kinds.append("damaged")
+        loads_ok = []
+        for t in texts:
+            try:
+                json.loads(t)
+                loads_ok.append(True)
+            except Exception:
+                loads_ok.append(False)
+        # what read_json returns for the prefixes (the clause itself, on the implementation)
+        not_none = 0
+        proc = CFDataProcessor()
+        tname = {"graph": "graph", "divisor": "divisor", "orientation": "orientation", "script": "firingscript"}[kind]
+        dpath = os.path.join(td, "p.json")
+        for t, k in zip(texts, kinds):
+            if k != "prefix":
+                continue
+            with open(dpath, "w", newline="") as f:
+                f.write(t)
+            ok3, res = call(proc.read_json, dpath, tname)
+            if not ok3 or res is not None:
+                not_none += 1
+    inject = {"texts": texts}
+    if kind == "divisor":
+        inject["dorder"] = [c.idx[v.name] for v in obj.degrees.keys()]
+    elif kind == "script":
+        inject["dorder"] = [c.idx[v.name] for v in obj._script.keys()]
+    return {"text": text, "_inject": inject, "_kinds": kinds, "_loads_ok": loads_ok, "prefix_not_none": not_none}
+
 @op("bounds")
 def op_bounds(scn):
     from chipfiring import CFCombinatorics as CC
